@@ -14,6 +14,10 @@ Monitors (name = <operation>.<clause>):
   <op>.refuses_foreign_namespace   must raise ValueError/TaxonNamespaceIdentityError, target unchanged
   <op>.raises            any exception that the documentation does not allow
   <op>.terminates        wall-clock guard expired twice (0.25 s, then 4x) on matrices of <= 4x4 cells
+                         (concatenate with colliding subset labels -- equal, case-variant, or equal to an automatic
+                         "locusNNN" name -- is the scope concatenate@labels; x.extend_matrix(x)/x.extend_sequences(x)
+                         is rowops@self)
+  concatenate_from_streams.{rows,subsets,result,raises,terminates}
 
 Allowed outcomes (from the documentation, so not violations):
   * concatenate: ValueError when a matrix does not hold one equally long sequence for every
@@ -100,6 +104,8 @@ def _opstr(op):
 
 
 def job_key(job):
+    if "widths" in job:
+        return "%s|concatenate_from_streams|%s|n=%d|widths=%s|given_ns=%s" % (job["type"], job["schema"], job["n"], job["widths"], bool(job.get("given_ns")))
     return "%s|n=%d|%s|%s" % (job["type"], job["n"], ";".join(_matstr(m) for m in job["mats"]),
                               ";".join(_opstr(o) for o in job["ops"]))
 
@@ -415,8 +421,63 @@ def eval_job(job, tl=TL, _confirm=True):
     return out
 
 
+def eval_streams_job(job, tl=5.0):
+    """concatenate_from_streams: hand-written FASTA / PHYLIP documents over the same labels"""
+    from io import StringIO
+    tp = job["type"]
+    cls = getattr(_cmm, TYPES[tp][0])
+    labels = NSLABELS[:job["n"]]
+    texts = []
+    for k, w in enumerate(job["widths"]):
+        rows = [seq_for(tp, i, w, k + 1) for i in range(len(labels))]
+        if job["schema"] == "fasta":
+            texts.append("".join(">%s\n%s\n" % (l, r) for l, r in zip(labels, rows)))
+        else:
+            texts.append("%d %d\n" % (len(labels), w) + "".join("%s  %s\n" % (l, r if isinstance(r, str) else " ".join(repr(x) for x in r))
+                                                                 for l, r in zip(labels, rows)))
+    kw = {}
+    ns = None
+    if job.get("given_ns"):
+        ns = TaxonNamespace(labels[::-1] + ["extra"][:0])
+        kw["taxon_namespace"] = ns
+    try:
+        with time_limit(tl):
+            res = cls.concatenate_from_streams([StringIO(t) for t in texts], schema=job["schema"], **kw)
+    except Timeout:
+        return [["concatenate_from_streams.terminates", 0, "no return within %.1f s" % tl]]
+    except Exception as ex:  # noqa
+        return [["concatenate_from_streams.raises", 0, "%s: %s" % (type(ex).__name__, ex)]]
+    out = []
+    if type(res) is not cls or (ns is not None and res.taxon_namespace is not ns):
+        out.append(["concatenate_from_streams.result", 0, "result %s over %r" % (type(res).__name__, res.taxon_namespace)])
+        return out
+    got = {}
+    for t, r in CM.raw_rows(res).items():
+        got[t._label] = [CM.cell_token(v) if TYPES[tp][1] else v for v in r]
+    want = {}
+    for i, l in enumerate(labels):
+        cells = []
+        for k, w in enumerate(job["widths"]):
+            cells += list(seq_for(tp, i, w, k + 1))
+        want[l] = cells
+    if got != want:
+        out.append(["concatenate_from_streams.rows", 0, "rows %r, required %r" % (got, want)])
+    gs = [sorted(x) for _, x in CM.raw_subsets(res)]
+    es, start = [], 0
+    for w in job["widths"]:
+        es.append(list(range(start, start + w)))
+        start += w
+    if gs != es:
+        out.append(["concatenate_from_streams.subsets", 0, "recorded subsets %r, required %r" % (gs, es)])
+    if [t._label for t in res.taxon_namespace._taxa] != (labels[::-1] if ns is not None else labels):
+        out.append(["concatenate_from_streams.result", 0, "namespace labels %r" % ([t._label for t in res.taxon_namespace._taxa],)])
+    return out
+
+
 def _work(item):
     scope, job, nontrivial = item
+    if "widths" in job:
+        return eval_streams_job(job)
     return eval_job(job)
 
 
@@ -563,6 +624,17 @@ def jobs_rowsets(tier):
     return out
 
 
+def jobs_streams(tier):
+    out = []
+    for tp in ALL_TYPES:
+        schema = "phylip" if tp == "continuous" else "fasta"
+        for widths in ([3], [2, 3], [1, 4, 2], [2, 2]):
+            for given in (False, True):
+                for n in (1, 3):
+                    out.append(("concatenate_from_streams", {"type": tp, "n": n, "schema": schema, "widths": widths, "given_ns": given}, len(widths) >= 2 and n >= 2))
+    return out
+
+
 def jobs_histories(ctx):
     tier = ctx.tier
     N = 400 if tier == "quick" else 6000
@@ -647,6 +719,8 @@ SCOPE_RULES = {
     "rowsets@taxa-subsets": ("remove/discard/keep_sequences x every row-presence pattern of 3 (thorough 4) taxa x every subset of the taxa, "
                              "plus duplicates, a taxon outside the namespace, set/tuple/generator arguments; all 8 types; "
                              "non-trivial = selection splits the present rows", True),
+    "concatenate_from_streams": ("1-3 hand-written FASTA (continuous: PHYLIP) documents over 1 or 3 labels, widths 1-4, with and without a "
+                                 "caller-supplied namespace; all 8 types; non-trivial = >= 2 documents and >= 2 taxa", True),
     "histories@random": ("seeded random histories of 3..6 operations over three matrices + one foreign-namespace matrix (labels None, "
                          "other != self), every matrix re-compared with its model after every step; non-trivial = >= 3 operations", False),
 }
@@ -655,7 +729,7 @@ SCOPE_RULES = {
 def all_jobs(ctx):
     t = ctx.tier
     return (jobs_concat_lists(t) + jobs_concat_labels(t) + jobs_export(t) + jobs_fill(t) + jobs_rowops(t)
-            + jobs_rowops_self(t) + jobs_rowsets(t) + jobs_histories(ctx))
+            + jobs_rowops_self(t) + jobs_rowsets(t) + jobs_streams(t) + jobs_histories(ctx))
 
 
 def t2(ctx):
@@ -675,12 +749,12 @@ def t2(ctx):
                 continue
             seen.add(mon)
             ctx.fail(mon, {"key": key, "job": job, "step": step, "scope": scope},
-                     detail="%s step %d (%s): %s" % (key, step, _opstr(job["ops"][step]), det))
+                     detail="%s step %d (%s): %s" % (key, step, _opstr(job["ops"][step]) if "ops" in job else "concatenate_from_streams", det))
 
 
 def replay(ctx, rec):
     w = rec["witness"]
-    res = eval_job(w["job"])
+    res = eval_streams_job(w["job"]) if "widths" in w["job"] else eval_job(w["job"])
     hit = [r for r in res if r[0] == rec["obligation"]]
     for r in res:
         print("  replay: %s at step %d: %s" % (r[0], r[1], r[2]))
